@@ -197,6 +197,8 @@ var checks = map[string]*check{
 		},
 		Parts: []part{
 			{Name: "output", Kind: "explore", Scen: "plugin_output", BatchN: 100, Depths: depths([]int{0}, []int{0}), Budget: budget(3*time.Minute, 30*time.Minute)},
+			// the real command runner's pipes: a burst of stderr lines still unread (slow Stderr writer) when the plugin is force-killed
+			{Name: "real-pipes", Kind: "enum", Bin: "e3.test", Test: "TestC10Proc"},
 		},
 	},
 	"C04": {
